@@ -161,9 +161,12 @@ Crossbeam<'a, ItemType, BUFFER_SIZE, MAX_STREAMS> {
                 break
             }
             let sender = unsafe { self.senders.get_unchecked(*stream_id as usize) };
+            #[cfg(feature = "verif")] crate::verif::yield_point("multi.xb.send.before_len");
             match sender.len() {
                 len_before if len_before <= 2 => {
+                    #[cfg(feature = "verif")] crate::verif::yield_point("multi.xb.send.before_try_send");
                     let _ = sender.try_send(arc_item.clone());
+                    #[cfg(feature = "verif")] crate::verif::yield_point("multi.xb.send.after_try_send");
                     self.streams_manager.wake_stream(*stream_id);
                 },
                 _ => while sender.try_send(arc_item.clone()).is_err() {
@@ -204,6 +207,7 @@ Crossbeam<'a, ItemType, BUFFER_SIZE, MAX_STREAMS> {
     #[inline(always)]
     fn consume(&self, stream_id: u32) -> Option<Arc<ItemType>> {
         let receiver = unsafe { self.receivers.get_unchecked(stream_id as usize) };
+        #[cfg(feature = "verif")] crate::verif::yield_point("multi.xb.consume.before_try_recv");
         match receiver.try_recv() {
             Ok(event) => {
                 Some(event)
